@@ -1073,6 +1073,8 @@ EXTRACTORS["C09"] = EXTRACTORS["C09"] + [GEN_SRC[n] for n in ("SrcMyersSimpleNew
 # genlong: C10 — the cursor moves of the single-word traceback handler; Thm/C10.lean imports RbV.Thm.GenSrcMyersTb and restates
 GEN_SRC.update({n: gen_src(n) for n in ("SrcMyersTbState", "SrcMyersTbShort")})
 EXTRACTORS["C10"] = EXTRACTORS["C10"] + [GEN_SRC[n] for n in ("SrcMyersTbState", "SrcMyersTbShort")]
+GEN_SRC.update({n: gen_src(n) for n in ("SrcMyersTbMask", "SrcMyersTbShort2")})
+EXTRACTORS["C10"] = EXTRACTORS["C10"] + [GEN_SRC[n] for n in ("SrcMyersTbMask", "SrcMyersTbShort2")]
 
 
 # genprob: log-space probability arithmetic (C15) — dialect "prob" of tools/rs2lean_genprob.py (`f64` abstract);
